@@ -282,7 +282,7 @@ func runC12(c *Ctx) {
 					return ok && p.CalleeName(call) == gSend && Glob("*free:var:pkg/state.Event", p.ArgDesc(call, 2))
 				}
 				c.MustCut("R12.5", "send(initial event) ⊣ {TailEvents ≤ 0}", del, sendInit, CutSpec{Edges: p.LinEdge(al, "le:+1*T")}, 1)
-				c.MustCut("R12.5", "send(initial event) ⊣ {no bookmark}", del, sendInit, CutSpec{Edges: FactEdge("nil(*free:var:pkg/state.Watch*Options.StartFromBookmark)")}, 1)
+				c.MustCut("R12.5", "send(initial event) ⊣ {no bookmark}", del, sendInit, CutSpec{Edges: FactEdge("nil(*var:pkg/state.Watch*Options.StartFromBookmark)")}, 1)
 			} else {
 				// bootstrap list is only populated under BootstrapContents, which excludes tail/bookmark (R12.4)
 				c.MustCut("R12.5", "bootstrapList filled ⊣ {BootstrapContents}", f, func(in ssa.Instruction) bool {
@@ -297,7 +297,7 @@ func runC12(c *Ctx) {
 				}, CutSpec{Edges: p.LinEdge(al, "le:+1*T")}, 1)
 				c.MustCut("R12.5", "Bootstrapped event ⊣ {BootstrapContents}", del, func(in ssa.Instruction) bool {
 					return StoreToField("Event", "Type")(in) && p.Desc(in.(*ssa.Store).Val) == p.ConstVal(pkgState, "Bootstrapped")
-				}, CutSpec{Edges: FactEdge("true(*free:var:pkg/state.Watch*Options.BootstrapContents)")}, 1)
+				}, CutSpec{Edges: FactEdge("true(*var:pkg/state.Watch*Options.BootstrapContents)")}, 1)
 			}
 		}
 	}
